@@ -45,7 +45,8 @@ SKIP_KEYS = {"prev", "next", "raw", "parsed", "hdr_len", "payload_len", "arr",
 KINDS = ["arp", "tcp", "tcp_opts", "udp", "tcp_csum0", "udp_csum0", "icmp_csum0",
          "ip_csum0", "icmp_echo", "icmp_unreach",
          "icmp_texc", "icmp_unreach_quoting", "icmp_texc_quoting", "ip_raw", "ip_opts", "llc", "snap", "ip6_udp", "ip6_tcp",
-         "ip6_icmp", "mpls", "gre", "vxlan", "igmp", "rip", "eapol", "vlan_qinq"]
+         "ip6_icmp", "mpls", "gre", "vxlan", "igmp", "rip", "eapol", "vlan_qinq",
+         "ip6_udp_csum0", "ip6_tcp_csum0", "ip6_icmp_csum0"]
 
 
 def P ():
@@ -98,7 +99,7 @@ def build (kind, rng):
       e.payload = l3
   def ip4 (proto, l4, **kw):
     ip = pkt.ipv4(tos=rint(rng, 8), id=rint(rng, 16),
-                  flags=rng.choice([0, 0, 2]), ttl=rint(rng, 8) or 1,
+                  flags=rng.choice([0, 0, 2, 4, 6]), ttl=rint(rng, 8),
                   protocol=proto, srcip=addr4(rng), dstip=addr4(rng), **kw)
     ip.payload = l4
     return ip
@@ -111,6 +112,7 @@ def build (kind, rng):
     t = pkt.tcp(srcport=rint(rng, 16), dstport=rint(rng, 16), seq=rint(rng, 32),
                 ack=rint(rng, 32), flags=rint(rng, 8), win=rint(rng, 16),
                 urg=rint(rng, 16))
+    if rng.random() < 0.3: t.res = rng.randrange(1, 16)    # (the reserved bits)
     if kind == "tcp_opts":
       O = pkt.tcp_opt
       opts = []
@@ -184,6 +186,7 @@ def build (kind, rng):
       q = quoted[:rng.choice([0, 8, 19])]      # too short to be re-parsed
     if kind.startswith("icmp_unreach"):
       body = pkt.unreach(next_mtu=rint(rng, 16))
+      if rng.random() < 0.3: body.unused = rint(rng, 16)
       ic = pkt.icmp(type=3, code=rng.choice([0, 1, 3, 4, 13]))
     else:
       body = pkt.time_exceed() if hasattr(pkt, "time_exceed") else pkt.time_exceeded()
@@ -192,7 +195,12 @@ def build (kind, rng):
     ic.payload = body
     set_l3(0x0800, ip4(1, ic))
   elif kind == "ip_raw":
-    set_l3(0x0800, ip4(rng.choice([89, 50, 132, 253, 255]), payload))
+    ipr = ip4(rng.choice([89, 50, 132, 253, 255]), payload)
+    if rng.random() < 0.4:
+      # a fragment (any flags, the whole range of offsets)
+      ipr.flags = rng.randrange(8)
+      ipr.frag = rng.choice([1, 185, 0x0fff, 0x1000, 0x1fff])
+    set_l3(0x0800, ipr)
   elif kind == "ip_opts":
     n = rng.randrange(1, 11)
     opts = (b"\x94\x04\0\0" * n)[:4 * n]
@@ -233,6 +241,29 @@ def build (kind, rng):
                   hop_limit=rint(rng, 8), tc=rint(rng, 8), flow=rint(rng, 20))
     i6.payload = l4
     set_l3(0x86dd, i6)
+  elif kind in ("ip6_udp_csum0", "ip6_tcp_csum0", "ip6_icmp_csum0"):
+    # the same steering over IPv6 (its own branch of the checksum code)
+    tagged = False
+    s6, d6 = addr6(rng), addr6(rng)
+    body = b"\0\0" + rbytes(rng, rng.choice([0, 1, 8, 9, 98]))
+    if kind == "ip6_udp_csum0":
+      l4 = pkt.udp(srcport=40000, dstport=40001); l4.payload = body; nh = 17; off = 14 + 40 + 6
+      def put (c): l4.payload = struct.pack("!H", c) + body[2:]
+    elif kind == "ip6_tcp_csum0":
+      l4 = pkt.tcp(srcport=rint(rng, 16), dstport=rint(rng, 16), seq=rint(rng, 32),
+                   flags=0x18, win=rint(rng, 16))
+      l4.payload = body; nh = 6; off = 14 + 40 + 16
+      def put (c): l4.payload = struct.pack("!H", c) + body[2:]
+    else:
+      l4 = pkt.icmpv6(type=128, code=0)
+      l4.payload = struct.pack("!HH", rint(rng, 16), rint(rng, 16)) + body
+      nh = 58; off = 14 + 40 + 2
+      head = l4.payload[:4]
+      def put (c): l4.payload = head + struct.pack("!H", c) + body[2:]
+    i6 = pkt.ipv6(srcip=s6, dstip=d6, next_header_type=nh, hop_limit=64)
+    i6.payload = l4
+    set_l3(0x86dd, i6)
+    put(struct.unpack_from("!H", e.pack(), off)[0])
   elif kind == "mpls":
     m = pkt.mpls(label=rint(rng, 20), tc=rng.randrange(8), s=1, ttl=rint(rng, 8))
     m.payload = payload
@@ -241,6 +272,10 @@ def build (kind, rng):
     g = pkt.gre(type=rng.choice([0x88b5, 0x0800, 0x6558]))
     if rng.random() < 0.5: g.key = rint(rng, 32)
     if rng.random() < 0.5: g.seq = rint(rng, 32)
+    r = rng.random()
+    if r < 0.15: g.strict_source_route = True
+    elif r < 0.3: g.recursion = rng.randrange(1, 8)
+    elif r < 0.4: g.ver = rng.randrange(1, 8)
     if g.type == 0x0800:
       u = pkt.udp(srcport=7, dstport=9); u.payload = payload[:100]
       inner = pkt.ipv4(protocol=17, srcip=addr4(rng), dstip=addr4(rng))
@@ -256,7 +291,7 @@ def build (kind, rng):
   elif kind == "vxlan":
     ie = pkt.ethernet(dst=mac(rng), src=mac(rng), type=0x88b5)
     ie.payload = payload[:200]
-    vx = pkt.vxlan(vni=rint(rng, 24))
+    vx = pkt.vxlan(vni=rint(rng, 24) if rng.random() < 0.85 else None)
     vx.payload = ie
     # (a source port that is itself a well-known one - 5353 is reachable
     #  here - makes the UDP demultiplexer pick that application's parser
@@ -337,8 +372,24 @@ def chain (p):
   return out, q
 
 
-def compare_chains (fire, a, b, label):
+# fields an encoder computes and stores (whatever the caller put there)
+DERIVED_FIELDS = {"csum", "iplen", "len", "hl", "off", "payload_len", "length",
+                  "tcplen", "next_header_type", "hdr_len", "payload_length"}
+
+# kinds whose innermost built layer legitimately comes back as bytes
+SHORTER_OK = set()
+
+
+def compare_chains (fire, a, b, label, built=False):
   la, ta = chain(a); lb, tb = chain(b)
+  if built and len(lb) < len(la) and label not in SHORTER_OK:
+    # every layer the packet was assembled from is a layer the parser knows:
+    # bytes that merely re-serialise alike are not "equal header fields"
+    fire("%s: a layer the packet was built with is not parsed back [%s]" %
+         (label, type(la[len(lb)]).__name__),
+         "built %s parsed %s" % (">".join(type(x).__name__ for x in la),
+                                 ">".join(type(x).__name__ for x in lb)))
+    return False
   # where one side carries raw bytes and the other went on parsing them into
   # further layers, compare the bytes those layers serialise to
   n = min(len(la), len(lb))
@@ -450,6 +501,8 @@ def run_built (case, rep):
     p = build(kind, rng)
   except Exception:
     fire("%s: assembling raises" % kind, traceback.format_exc()[-500:]); return
+  # the header fields as they were asked for, before the encoder sees them
+  asked = [(type(x).__name__, layer_fields(x)) for x in chain(p)[0]]
   try:
     b = p.pack()
   except Exception as e:
@@ -457,6 +510,16 @@ def run_built (case, rep):
     fire("%s: pack raises %s in %s" % (kind, type(e).__name__, tb[-1].name),
          traceback.format_exc()[-500:]); return
   rep.count("built")
+  for (tn, before), x in zip(asked, chain(p)[0]):
+    after = layer_fields(x)
+    for k, v in before.items():
+      # (fields left empty are filled in by the encoder: lengths, checksums)
+      if v in (None, 0, b"", [], False) or k in DERIVED_FIELDS: continue
+      if k in after and after[k] != v:
+        fire("%s: serialising changed header field %s.%s of the packet being sent" % (kind, tn, k),
+             "%r -> %r" % (v, after[k]))
+        return
+  rep.count("fields_compared_before_and_after_packing")
   _, tail = chain(p)
   n = len(tail) if tail is not None else 0
   rep.count("odd_payloads" if n & 1 else "even_payloads")
@@ -466,7 +529,7 @@ def run_built (case, rep):
     fire("%s: parse raises %s" % (kind, type(e).__name__),
          traceback.format_exc()[-500:]); return
   rep.count("fields_compared")
-  if not compare_chains(fire, p, q, kind): return
+  if not compare_chains(fire, p, q, kind, built=True): return
   try:
     b2 = q.pack()
   except Exception as e:
@@ -502,6 +565,17 @@ def run_corpus (case, rep):
          traceback.format_exc()[-500:]); return
   rep.count("corpus_roundtrips")
   la, _ = chain(q)
+  want = corpus.EXPECTED_LAYERS.get(name)
+  got = ">".join(type(x).__name__ for x in la)
+  if want is not None:
+    rep.count("corpus_layer_chains_compared")
+    if got != want:
+      short = want.startswith(got + ">")
+      fire("corpus: %s" % ("parser stops short of a layer the frame has [%s]" %
+                           want.split(">")[len(got.split(">"))] if short else
+                           "frame parsed into other layers [%s]" % want),
+           "%s: parsed as %s, the frame is %s" % (name, got, want))
+      return
   if any(not x.parsed for x in la):
     bad = [type(x).__name__ for x in la if not x.parsed][0]
     fire("corpus: valid %s message not parsed" % bad,
